@@ -141,6 +141,34 @@ def _c14_scan_case(seed):
     return []
 
 
+def _c14_partial_cases():
+    """Partial-name filters ('*text') under renamings in which the text with its dot replaced by another character is the tail of a SIBLING's name:
+    the dot in a partial name is a literal dot."""
+    mods = ["r", "r.a", "r.a.x", "r.c", "r.d", "r.e"]
+    out = []
+    for imports in ([("r.c", "r.d")], [("r.a.x", "r.d")], [("r.c", "r.d"), ("r.a.x", "r.e")], [("r.d", "r.c")]):
+        res = {}
+        for nm, rho in (("free", {"r": "root", "a": "alpha", "x": "xi", "c": "gamma", "d": "delta", "e": "eps"}),
+                        ("adv", {"r": "r", "a": "a", "x": "x", "c": "a_x", "d": "d", "e": "ax"}),
+                        ("adv2", {"r": "p", "a": "pa", "x": "b", "c": "paXb", "d": "pa", "e": "b"})):
+            R = lambda m: rename(m, rho)
+            arch = build_arch([R(m) for m in mods], [(R(a), R(b)) for a, b in imports])
+            r_ = []
+            for verb in ("should", "should_not"):
+                for imp in (True, False):
+                    for side in ("subject", "object"):
+                        part, other = [("partial", "*" + rho["a"] + "." + rho["x"])], [("name", R("r.d"))]
+                        S, O = (part, other) if side == "subject" else (other, part)
+                        k, m = outcome(make_rule(S, verb, imp, False, O), arch)
+                        r_.append((k, sorted(unrename_text(m, rho, mods).split("\n")) if k == "fail" else m))
+            res[nm] = r_
+        if not (res["free"] == res["adv"] == res["adv2"]):
+            i = next(i for i in range(len(res["free"])) if not (res["free"][i] == res["adv"][i] == res["adv2"][i]))
+            out.append(dict(case="renaming-partial-name", detail=f"imports {imports}: rule #{i} with the partial name '*a.x' differs under injective renamings: "
+                            f"free {res['free'][i]}, adv {res['adv'][i]}, adv2 {res['adv2'][i]}", input=dict(kind="c14-partial")))
+    return out
+
+
 def bounded_renaming(tier, seed):
     from .common import import_relations
     b = Bounded("C14.verdicts-and-messages-invariant-under-component-renaming",
@@ -162,6 +190,9 @@ def bounded_renaming(tier, seed):
         b.case()
         for v in res:
             b.violation(v["case"], v["detail"], v["input"])
+    for v in _c14_partial_cases():
+        b.violation(v["case"], v["detail"], v["input"])
+    b.case()
     # directory trees on disk, scanned under three namings of the path components (names beginning with 'py', equal to 'init', 'proj', ...)
     for res in pmap(_c14_scan_case, [seed * 1013 + i for i in range(60 if tier == "quick" else 4000)]):
         b.case()
@@ -171,6 +202,9 @@ def bounded_renaming(tier, seed):
 
 
 def rerun_renaming(inp):
+    if inp.get("kind") == "c14-partial":
+        res = _c14_partial_cases()
+        return (not res), ("; ".join(v["detail"] for v in res) or "invariant under the renamings")
     if inp.get("kind") == "c14-scan":
         res = _c14_scan_case(inp["seed"])
         return (not res), ("; ".join(v["detail"] for v in res) or "invariant under the renamings")
@@ -258,6 +292,11 @@ for tree in ("deep", "nestedprefix"):
             O = [(ko, x) for x in rng.sample(cand, rng.randint(1, 3))]
             for verb, imp, exc in SHAPES:
                 res.append(outcome(make_rule(S, verb, imp, exc, O), arch))
+            # the two 'anything' aliases with several subjects that may import each other
+            Sn = [("name", x) for x in rng.sample(cand, rng.randint(2, 4))]
+            for imp in (True, False):
+                k, m = outcome(make_rule(Sn, "should_not", imp, False, None, anything=True), arch)
+                res.append((k, sorted((m or "").split("\n"))))
         res.append(sorted(arch.modules))
 # deterministic family: nested 'sub modules of' objects [p, p.c], a subject that imports the inner package itself
 for tree in ("deep", "nestedprefix", "deeper"):
@@ -322,6 +361,23 @@ def bounded_purity(tier, seed):
                     if seq != want:
                         b.violation("regex-rule-reapplied", f"one regex rule object ({side} {rx!r}, {verb}, import={imp}, except={exc}) applied to {'ABA' if order[0] is A else 'BAB'} gave {seq}; fresh rules give {want}",
                                     dict(kind="regex-reapply", side=side, verb=verb, import_=imp, except_=exc, regex=rx))
+    # the ORDER in which the object layers of a layer rule are listed (a name-defined and a regex-defined layer in one call) does not matter
+    from pytestarch import LayeredArchitecture, LayerRule
+    lmods = ["r", "r.a", "r.a.x", "r.b", "r.b.y", "r.c", "r.c.z", "r.d"]
+    for imports_ in ([("r.a.x", "r.b.y")], [("r.a.x", "r.c.z")], [("r.a", "r.d")], [("r.b.y", "r.a.x"), ("r.a.x", "r.c")]):
+        larch = build_arch(lmods, imports_)
+        for verb in ("should", "should_only", "should_not"):
+            for acc in ("access_layers_that", "be_accessed_by_layers_that", "access_layers_except_layers_that", "be_accessed_by_layers_except_layers_that"):
+                outs_ = []
+                for order in (["B", "C"], ["C", "B"]):
+                    la = LayeredArchitecture().layer("A").containing_modules(["r.a"]).layer("B").containing_modules(["r.b"]).layer("C").have_modules_with_names_matching(r"r\.c$")
+                    rule = getattr(getattr(LayerRule().based_on(la).layers_that().are_named("A"), verb)(), acc)().are_named(order)
+                    k, m = outcome(rule, larch)
+                    outs_.append((k, sorted((m or "").split("\n")) if k == "fail" else m))
+                b.case()
+                if outs_[0] != outs_[1]:
+                    b.violation("layer-object-order", f"layer rule A {verb} {acc} [B, C] vs [C, B] on imports {imports_}: {outs_[0]} vs {outs_[1]}",
+                                dict(kind="layer-object-order", imports=[list(p) for p in imports_], verb=verb, acc=acc))
     # hash seeds: fresh interpreter per seed
     seeds = [0, 1, 2, 3, 5, 7] if tier == "quick" else [0, 1, 2, 3, 5, 7, 11, 13, 17, 19, 23, 29]
     from concurrent.futures import ThreadPoolExecutor
@@ -361,7 +417,7 @@ def bounded_purity(tier, seed):
 
 
 def rerun_purity(inp):
-    if inp.get("kind") in ("hash-seed", "enum-order", "regex-reapply"):
+    if inp.get("kind") in ("hash-seed", "enum-order", "regex-reapply", "layer-object-order"):
         r = bounded_purity("quick", inp.get("seed", 0))
         v = [x for x in r["violations"] if x["input"].get("kind") == inp["kind"]]
         return not v, (v[0]["detail"] if v else "no difference observed")
